@@ -413,8 +413,18 @@ class Interp:
                 v = self.binop(op[0], cur, self.expr(e['args'][1], env))
                 self.store(e['args'][0], v, env)
                 return v
-            if op == '+' and len(e['args']) == 2:
-                return self.binop('+', self.expr(e['args'][0], env), self.expr(e['args'][1], env))
+            if op in ('+', '-') and len(e['args']) == 2:
+                a_, b_ = self.expr(e['args'][0], env), self.expr(e['args'][1], env)
+                is_it = lambda x: isinstance(x, tuple) and len(x) == 3 and x[0] == 'iter'
+                if is_it(a_) and isinstance(b_, int) and not isinstance(b_, bool):
+                    np_ = a_[1] + (b_ if op == '+' else -b_)
+                    if not 0 <= np_ <= len(a_[2]):
+                        raise OutOfRange('iterator moved outside its sequence (%d of %d)' % (np_, len(a_[2])))
+                    return ('iter', np_, a_[2])
+                if op == '-' and is_it(a_) and is_it(b_) and (a_[2] is b_[2] or (isinstance(a_[2], str) and a_[2] == b_[2])):
+                    return a_[1] - b_[1]
+                if op == '+':
+                    return self.binop('+', a_, b_)
             raise Unsupported('operator ' + op + ' on ' + e.get('at', ''))
         if k in ('call', 'mcall'):
             name = SX.short(SX.callee(e))
@@ -430,6 +440,21 @@ class Interp:
                     seg = sorted(seg) if 'sort' in SX.callee(e) else list(reversed(seg))
                     lst[a[0][1]:a[1][1]] = seg
                     return None
+                raise Unsupported('call ' + SX.callee(e))
+            if k == 'call' and (SX.callee(e) or '').split('<')[0] in ('std::find_if', 'std::find_if_not') and len(SX.real_args(e)) == 3:
+                a = [self.expr(x, env) for x in SX.real_args(e)]
+                if all(isinstance(x, tuple) and x[0] == 'iter' and len(x) == 3 for x in a[:2]) and (a[0][2] is a[1][2] or a[0][2] == a[1][2]) \
+                        and isinstance(a[2], dict) and a[2].get('k') == 'lambda':
+                    want = 'not' not in SX.callee(e)
+                    seq = a[0][2]
+                    for i_ in range(a[0][1], a[1][1]):
+                        x_ = seq[i_]
+                        lit = {'k': 'char', 'v': ord(x_)} if isinstance(x_, str) and len(x_) == 1 else ({'k': 'int', 'v': x_} if isinstance(x_, int) else None)
+                        if lit is None:
+                            raise Unsupported('call ' + SX.callee(e))
+                        if self.truth(self.invoke_closure(a[2], [lit], env)) == want:
+                            return ('iter', i_, seq)
+                    return ('iter', a[1][1], seq)
                 raise Unsupported('call ' + SX.callee(e))
             if k == 'call' and (SX.callee(e) or '').split('<')[0] in ('std::copy', 'std::fill') and len(SX.real_args(e)) == 3:
                 a = [self.expr(x, env) for x in SX.real_args(e)]
